@@ -1906,7 +1906,7 @@ def gen_src(rng, pf=0.0):
 def gen_hist(rng, tier, scale=1):
     quick = tier == "quick"
     out = []
-    n = (1 if quick else 12) * scale
+    n = (1 if quick else 7) * scale
 
     def rep(k, f):
         for _ in range(k):
